@@ -41,6 +41,7 @@ type Out struct {
 	Stats      map[string]int
 	Samples    []string
 	Oracle     []OracleFailure
+	Foreign    []ForeignNote
 	distinct   map[string]struct{}
 	Nontrivial int
 }
@@ -50,6 +51,26 @@ type OracleFailure struct {
 	Signature string `json:"signature"` // stable identifier of the witness (matched against known findings)
 	What      string `json:"what"`
 	Replay    string `json:"replay"` // op lines reproducing it
+}
+
+// ForeignNote: something this harness saw on the real code that is NOT a violation of the property it checks but of
+// another one (e.g. a comparator that needs answers in score order meets an answer that is not: the order is the text
+// index's statement, the comparison "same answer warm and cold" still goes through).  The runner prints it as
+// `NOTE property=<this> belongs-to=<owner>`, never as a violation of this property; the owner's check reports it.
+// Only to be used when the harness can SHOW that its own property still holds on that input.
+type ForeignNote struct {
+	Owners []string `json:"owners"`
+	Stream string   `json:"stream"`
+	Op     string   `json:"op"`
+	Why    string   `json:"why"`
+	Replay string   `json:"replay"`
+}
+
+func (o *Out) Note(owner, stream, op, why, replay string) {
+	o.Stats["foreign-note"]++
+	if len(o.Foreign) < 50 {
+		o.Foreign = append(o.Foreign, ForeignNote{[]string{owner}, stream, op, why, replay})
+	}
 }
 
 func NewOut(dir string) *Out {
@@ -106,6 +127,9 @@ func (o *Out) Close(extra map[string]any) {
 		o.Oracle = []OracleFailure{}
 	}
 	m := map[string]any{"evaluations": o.N, "distinct_nontrivial": o.Nontrivial, "distribution": o.Stats, "samples": o.Samples, "oracle_failures": o.Oracle}
+	if len(o.Foreign) > 0 {
+		m["foreign"] = o.Foreign
+	}
 	for k, v := range extra {
 		m[k] = v
 	}
